@@ -277,8 +277,14 @@ def part_settings(ctx):
     exprs = []
     for cv in ("None", '(Some "0.4.3"%string)'):
         for o in ["None"] + [f"(Some {l})" for l in ("NONE", "GAS", "CODESIZE", "O2", "O3", "Os")]:
+            if ctx.tier == "quick" and cv != "None" and o not in ("None", "(Some O3)", "(Some CODESIZE)"):
+                continue        # quick: every level without a version, three levels with one; thorough: exhaustive
             exprs.append(f"map row (settings_for {cv} {o})")
-    packed = [z for l in coqrun.eval_zlists(imports, exprs, "c18settings", shard=5, timeout=300) for z in l]
+    chunks = [exprs[k::3] for k in range(3)]      # three coqc processes side by side
+    with ThreadPoolExecutor(max_workers=3) as ex:
+        parts = list(ex.map(lambda kc: coqrun.eval_zlists(imports, kc[1], f"c18settings{kc[0]}", shard=5, timeout=300),
+                            enumerate(chunks)))
+    packed = [z for part in parts for l in part for z in l]
     out = []
     for z in packed:
         digits = []
@@ -429,7 +435,8 @@ def part_histories(ctx, root):
     sessions.append(("s5", 4, [job(p, dict(c, evm=e), efmts) for p in eprogs for c in cfgs for e in evs]))
     sessions.append(("s6", 5, [job(p, dict(c, evm=e), efmts) for p in reversed(eprogs) for c in cfgs for e in reversed(evs)]))
     # S7: every ordered pair of output formats (what is computed first must not influence what comes second)
-    pf = ["bytecode", "bytecode_runtime", "ir", "asm", "metadata", "layout", "abi"]
+    pf = ["bytecode", "bytecode_runtime", "ir", "asm", "metadata", "layout", "abi"] if ctx.tier == "thorough" else \
+         ["bytecode", "ir", "asm", "metadata", "layout"]
     pprogs = progs if ctx.tier == "thorough" else ["token", "iface_vyi"]
     sessions.append(("s7", 6, [job(p, c, [f, g]) for p in pprogs for c in cfgs for f in pf for g in pf if f != g]))
     if ctx.tier == "thorough":
@@ -492,7 +499,7 @@ def part_hashseeds(ctx, root):
     under legacy and every venom level, each in fresh processes which differ ONLY in PYTHONHASHSEED (same job order)."""
     rnd = ctx.rng("hashseeds")
     progs = {k: {"target": "c.vy", "files": {"c.vy": v}} for k, v in CF_FIXED.items()}
-    for i in range(8 if ctx.tier == "quick" else 40):
+    for i in range(6 if ctx.tier == "quick" else 40):
         progs[f"cf_gen{i}"] = {"target": "c.vy", "files": {"c.vy": gen_cf_program(rnd)}}
     materialize(root, progs)
     seeds = [0, 1, 2, 3] if ctx.tier == "quick" else [0, 1, 2, 3, 4, 5, 6, 7]
@@ -868,7 +875,7 @@ def run(ctx):
         "override_vs_none_separated, settings_roundtrip(+_exact,+_stable); anonymize_injective_on_inputs is REFUTED (witness replayed on "
         "the compiler) and proved only for paths without all-digit segments; tied to the code by evaluating the model's hashing "
         f"expression with real sha256 on {n_i} generated import DAGs (also comparing which strings the real code hashes, in order) "
-        f"and by an exhaustive differential of {n_s} Settings values. EXPLORED ONLY (no theorem possible about interpreter state): "
+        f"and by a{'n exhaustive' if ctx.tier == 'thorough' else ' (quick tier: level-stratified)'} differential of {n_s} Settings values. EXPLORED ONLY (no theorem possible about interpreter state): "
         f"{comps} compilations of {len(CORPUS)} corpus programs in {ctx.corr.get('history_sessions')} fresh processes under "
         f"PYTHONHASHSEED {ctx.corr.get('hash_seeds')}, different compile histories and output-format orders/subsets, "
         f"{compared} byte comparisons (of which a hash-seed sweep: {ctx.corr.get('hashseed_programs')} control-flow heavy programs "
